@@ -211,29 +211,27 @@ func validateV1alpha1RolloutSpecCanarySteps(c *validateContext, steps []appsv1al
 		}
 	}
 
-	for i := 1; i < stepCount; i++ {
-		prev := &steps[i-1]
+	// numbers and percentages are not comparable with each other: compare every step
+	// with the closest earlier step of the same type, not only with its direct neighbour
+	lastReplicas := map[bool]int{}
+	for i := 0; i < stepCount; i++ {
 		curr := &steps[i]
-		if isTraffic && curr.Weight != nil && prev.Weight != nil && *curr.Weight < *prev.Weight {
-			return field.ErrorList{field.Invalid(fldPath.Child("Weight"), steps, `Steps.Weight must be a non decreasing sequence`)}
+		if i > 0 {
+			prev := &steps[i-1]
+			if isTraffic && curr.Weight != nil && prev.Weight != nil && *curr.Weight < *prev.Weight {
+				return field.ErrorList{field.Invalid(fldPath.Child("Weight"), steps, `Steps.Weight must be a non decreasing sequence`)}
+			}
 		}
 
-		// if they are comparable, then compare them
-		if IsPercentageCanaryReplicasType(prev.Replicas) != IsPercentageCanaryReplicasType(curr.Replicas) {
-			continue
-		}
-
-		prevCanaryReplicas, _ := intstr.GetScaledValueFromIntOrPercent(prev.Replicas, 100, true)
+		isPercentage := IsPercentageCanaryReplicasType(curr.Replicas)
 		currCanaryReplicas, _ := intstr.GetScaledValueFromIntOrPercent(curr.Replicas, 100, true)
-		if prev.Replicas == nil {
-			prevCanaryReplicas = int(*prev.Weight)
-		}
 		if curr.Replicas == nil {
 			currCanaryReplicas = int(*curr.Weight)
 		}
-		if currCanaryReplicas < prevCanaryReplicas {
+		if prevCanaryReplicas, ok := lastReplicas[isPercentage]; ok && currCanaryReplicas < prevCanaryReplicas {
 			return field.ErrorList{field.Invalid(fldPath.Child("CanaryReplicas"), steps, `Steps.CanaryReplicas must be a non decreasing sequence`)}
 		}
+		lastReplicas[isPercentage] = currCanaryReplicas
 	}
 
 	return nil
